@@ -75,7 +75,7 @@ enum { RA_NONE = 0, RA_START1, RA_START2, RA_CANCEL, RA_READONLY, RA_START_SAME,
 static const char *const ra_names[RA__COUNT] = { "none", "start1", "start2", "cancel", "readonly", "start-same" };
 
 #define APP_MAXTOK 256
-#define APP_MAXSER 260
+#define APP_MAXSER 2048
 
 typedef struct {
   int      used;
@@ -110,6 +110,11 @@ typedef struct {
   int      naliases;
   char     ptrnames[8][128];
   int      nptr;
+  uint32_t addr_key[APP_MAXSER]; /* (family 4/6) << 28 | record index << 16 | serial, per returned address */
+  uint8_t  addr_raw[APP_MAXSER][16];
+  uint16_t addr_port[APP_MAXSER];
+  int      naddr;
+  int      port;      /* service/port asked (getaddrinfo) */
 } app_tok_t;
 
 static app_tok_t app_tok[APP_MAXTOK];
@@ -157,6 +162,29 @@ static void tok_add_serial(app_tok_t *t, uint32_t serial, uint32_t ttl)
     t->serials[t->nserials] = serial;
     t->ttls[t->nserials]    = ttl;
     t->nserials++;
+  }
+}
+
+static void tok_add_addr(app_tok_t *t, int family, const uint8_t *a, unsigned port)
+{
+  if (t->naddr < APP_MAXSER) {
+    uint32_t key;
+    if (family == AF_INET) {
+      key = (4u << 28) | ((uint32_t)a[1] << 16) | ((uint32_t)a[2] << 8) | a[3];
+      if (a[0] != 10) {
+        key = (4u << 28) | 0x0fff0000u | ((uint32_t)a[2] << 8) | a[3];
+      }
+    } else {
+      key = (6u << 28) | ((((uint32_t)a[11] << 8) | a[12]) << 16 & 0x0fff0000u) | ((uint32_t)a[14] << 8) | a[15];
+      if (a[0] != 0xfd || a[1] != 0x5e) {
+        key = (6u << 28) | 0x0fff0000u | ((uint32_t)a[14] << 8) | a[15];
+      }
+    }
+    t->addr_key[t->naddr] = key;
+    memset(t->addr_raw[t->naddr], 0, 16);
+    memcpy(t->addr_raw[t->naddr], a, family == AF_INET ? 4 : 16);
+    t->addr_port[t->naddr] = (uint16_t)port;
+    t->naddr++;
   }
 }
 
@@ -404,6 +432,7 @@ static void app_cb_host(void *arg, int status, int timeouts, struct hostent *h)
       for (i = 0; h->h_addr_list && h->h_addr_list[i]; i++) {
         const uint8_t *a = (const uint8_t *)h->h_addr_list[i];
         tok_add_serial(t, h->h_addrtype == AF_INET ? serial_from_v4(a) : serial_from_v6(a), 0);
+        tok_add_addr(t, h->h_addrtype, a, 0);
         t->result_naddr++;
       }
     }
@@ -422,9 +451,11 @@ static void app_cb_addrinfo(void *arg, int status, int timeouts, struct ares_add
       if (n->ai_family == AF_INET) {
         const struct sockaddr_in *sin = (const struct sockaddr_in *)(const void *)n->ai_addr;
         tok_add_serial(t, serial_from_v4((const uint8_t *)&sin->sin_addr), (uint32_t)n->ai_ttl);
+        tok_add_addr(t, AF_INET, (const uint8_t *)&sin->sin_addr, ntohs(sin->sin_port));
       } else if (n->ai_family == AF_INET6) {
         const struct sockaddr_in6 *sin6 = (const struct sockaddr_in6 *)(const void *)n->ai_addr;
         tok_add_serial(t, serial_from_v6((const uint8_t *)&sin6->sin6_addr), (uint32_t)n->ai_ttl);
+        tok_add_addr(t, AF_INET6, (const uint8_t *)&sin6->sin6_addr, ntohs(sin6->sin6_port));
       }
       t->result_naddr++;
     }
@@ -553,7 +584,14 @@ static void app_start_token(int ti)
         memset(&h, 0, sizeof(h));
         h.ai_family = t->family;
         h.ai_flags  = t->ai_flags;
-        ares_getaddrinfo(ch, t->name, NULL, &h, app_cb_addrinfo, t);
+        if (t->port > 0) {
+          char svc[16];
+          snprintf(svc, sizeof(svc), "%d", t->port);
+          h.ai_flags |= ARES_AI_NUMERICSERV;
+          ares_getaddrinfo(ch, t->name, svc, &h, app_cb_addrinfo, t);
+        } else {
+          ares_getaddrinfo(ch, t->name, NULL, &h, app_cb_addrinfo, t);
+        }
         break;
       }
     case RK_GETHOSTBYNAME:
